@@ -78,7 +78,7 @@ func (c Cfg) PartPath(i int) string { return filepath.Join(c.OutDir, fmt.Sprintf
 // SpawnWorkers runs this binary n times as workers and collects their partials.
 // extraEnv is added to every worker.  A worker that dies without a partial is harness
 // trouble (exit 2), never a verdict.
-func SpawnWorkers(c Cfg, n int, extraEnv []string, gomaxprocs func(i int) int) []*Partial {
+func SpawnWorkers(c Cfg, n int, extraEnv func(i int) []string, gomaxprocs func(i int) int) []*Partial {
 	var wg sync.WaitGroup
 	parts := make([]*Partial, n)
 	errs := make([]string, n)
@@ -88,7 +88,10 @@ func SpawnWorkers(c Cfg, n int, extraEnv []string, gomaxprocs func(i int) int) [
 			defer wg.Done()
 			cmd := exec.Command(os.Args[0], "-test.run", "^TestEngine$", "-test.timeout", "0", "-test.count", "1")
 			gmp := gomaxprocs(i)
-			cmd.Env = append(os.Environ(), extraEnv...)
+			cmd.Env = os.Environ()
+			if extraEnv != nil {
+				cmd.Env = append(cmd.Env, extraEnv(i)...)
+			}
 			cmd.Env = append(cmd.Env, "VERIF_WORKER="+strconv.Itoa(i), "VERIF_WORKERS="+strconv.Itoa(n),
 				"GOMAXPROCS="+strconv.Itoa(gmp), "VERIF_MODE="+c.Mode)
 			logf := filepath.Join(c.OutDir, fmt.Sprintf("worker-%s-%d.log", c.Mode, i))
